@@ -56,7 +56,7 @@ CONFIG = {
         "thorough": {"checks": 1200000, "shards": 14, "timeout": 3000, "shrinktime": "60s"},
         "assumptions": [
             "a lookup is an expected hit only when the very same name was loaded successfully by GetTemplate before; templates pulled in indirectly (extends during a GetTemplate, include at run time) are 'maybe cached' and nothing is asserted about them until they are requested directly",
-            "which key a cache entry is stored under is not asserted; explicit-extension aliases of a name are not generated",
+            "which key a cache entry is stored under is not asserted; names that are related through the extension list (/a and /a.html under .jet / .html.jet) are the listed finding c16-cached-later-extension and are not generated",
             "the loader wrapper injects faults deterministically (Open error, reader failing after one byte)",
         ],
     },
@@ -83,12 +83,12 @@ CONFIG = {
     'C09': {
         "quick": {'checks': 8000, 'shards': 4, 'timeout': 900},
         "thorough": {'checks': 300000, 'shards': 14, 'timeout': 3600, 'shrinktime': '60s'},
-        "assumptions": ['a range stops after an iteration that executed a return (pinned by the existing suite)', 'a return inside a template run by includeIfExists is not generated (the function evaluates to a boolean)'],
+        "assumptions": ['a range stops after an iteration that executed a return (pinned by the existing suite)', 'a return inside a template run by includeIfExists is the listed finding c09-return-through-includeifexists and is not generated'],
     },
     'C13': {
         "quick": {'checks': 10000, 'shards': 4, 'timeout': 900},
         "thorough": {'checks': 500000, 'shards': 14, 'timeout': 3600, 'shrinktime': '60s'},
-        "assumptions": ['try bodies never assign variables declared outside the try (value rollback is unspecified)', 'the text of the caught error is never printed (only isset of the catch variable)'],
+        "assumptions": ['try bodies never assign variables declared outside the try (value rollback is unspecified)', 'the text of a caught engine error is never printed (only isset of the catch variable; the value of a panic with a string is printed)'],
     },
     'C12': {
         "quick": {'checks': 12000, 'shards': 4, 'timeout': 900},
